@@ -4,6 +4,7 @@ import (
 	"fmt"
 	"sort"
 	"strings"
+	"verifh/sim"
 
 	balloons "github.com/containers/nri-plugins/cmd/plugins/balloons/policy"
 )
@@ -110,6 +111,23 @@ func (o *oracles) unitsOf(level string) []cset {
 		out = append(out, groups[k])
 	}
 	return out
+}
+
+// readmitEvidence: the policy logged at least as many failed re-admissions in
+// the last request as there are containers that came out of it without a
+// balloon (the message does not always name the container).
+func (o *oracles) readmitEvidence(sn *balloons.VerifSnap) bool {
+	w := o.w
+	none := 0
+	for _, y := range w.rt.active() {
+		if w.cpuPreserved(y) || o.balloonsPreserveRule(y) {
+			continue
+		}
+		if _, n := balloonOf(sn, y.spec.ID); n == 0 && (y.lostGrant == "" || strings.HasPrefix(y.lostGrant, "failed-reallocation-on-"+o.lastKind)) {
+			none++
+		}
+	}
+	return len(sim.LogLines(markReadmitFailed)) >= none
 }
 
 func (o *oracles) checkC02(rep0 reporter) {
@@ -236,7 +254,12 @@ func (o *oracles) checkC02(rep0 reporter) {
 				how = "several"
 			}
 			if n == 0 && y.lostGrant == "" && (o.lastKind == "sync" || o.lastKind == "restart" || o.lastKind == "reconfigure") {
-				y.lostGrant = "failed-reallocation-on-" + o.lastKind
+				if o.readmitEvidence(sn) {
+					y.lostGrant = "failed-reallocation-on-" + o.lastKind
+				} else {
+					// nothing says the policy even tried
+					how = "none not-readmitted-on-" + o.lastKind
+				}
 			}
 			if n == 0 && y.lostGrant != "" {
 				how = "none after-" + y.lostGrant
